@@ -132,6 +132,11 @@ def docs_for(tier):
     specs = c05.all_specs("quick")
     for i, spec in enumerate(specs[:: (23 if tier == "quick" else 5)]):
         items.append(("trees", spec))
+    # the attribute-coverage families of C09 (every criteria form incl. deep AND/OR nesting and blank-significant values, string/binary
+    # configurations, calibrators/enumerations/time types, optional attributes, shared names)
+    from mc.checks.c09 import extra_items
+    for it in extra_items(tier):
+        items.append(("extra", it))
     return items
 
 
@@ -139,6 +144,9 @@ def make_doc(item):
     fam, x = item
     if fam == "palette":
         return c01.compose(x[0], x[1])
+    if fam == "extra":
+        from mc.checks.c09 import extra_doc
+        return extra_doc(x)[0]
     return c05.make_doc(**x)
 
 
@@ -149,7 +157,7 @@ def _task(task):
         try:
             with case_alarm(120):
                 doc = make_doc(item)
-                for style in (STYLES if (j + task["base"]) % 3 == 0 or item[0] == "trees" else (STYLES[(j + task["base"]) % 4],)):
+                for style in (STYLES if (j + task["base"]) % 3 == 0 or item[0] == "trees" else (STYLES[(j + task["base"]) % 4],)) if item[0] != "extra" else (STYLES[(j + task["base"]) % 4], "xtce")[:1 + (j % 2)]:
                     for via in ("xml", "objects"):
                         case = {"family": item[0], "item": item[1], "style": style, "via": via, "use_write_xml": (j + task["base"]) % 4 == 0}
                         try:
@@ -220,7 +228,7 @@ def run(ctx):
         "traces_validated_against_impl": tally.traces,
         "programs": tally.programs,
         "exhaustive": True,
-        "bound": (f"{len(items)} documents of the C09 family (palette kinds alone / ordered pairs, container trees) x namespace configurations "
+        "bound": (f"{len(items)} documents of the C09 family (palette kinds alone / ordered pairs, container trees, the attribute-coverage families) x namespace configurations "
                   "{prefix xtce, upper-case prefix XTCE, default namespace, none} (all four for every third document and all trees, one rotating otherwise) x "
                   "{loaded from XML, built from objects}; 3 write/load cycles each; a sample re-serialized in two subprocesses with different PYTHONHASHSEED"),
         "rule": ("one evaluation = one document/config taken through G1..G4; states = distinct serializations reached; transitions = write and load "
@@ -235,6 +243,9 @@ def replay(case):
     item = (case["family"], case["item"])
     if case["family"] == "palette":
         item = ("palette", (tuple(case["item"][0]), case["item"][1]))
+    elif case["family"] == "extra":
+        it = case["item"]
+        item = ("extra", (it[0], tuple(it[1]) if isinstance(it[1], list) else it[1]))
     else:
         spec = dict(case["item"])
         spec["parents"] = tuple(spec["parents"])
